@@ -40,6 +40,7 @@ type Scenario struct {
 	Quick      Bounds
 	Thorough   Bounds
 	NoRace     bool // exclude from the C13 race-mode exploration
+	RacePB     int  // preemption/deviation bound for the quick race-mode exploration (default 1)
 	// ThoroughOnly scenarios run only in the thorough tier; QuickOnly only in the quick tier.
 	ThoroughOnly bool
 	QuickOnly    bool
